@@ -105,7 +105,9 @@ Record upobj := mkUp {
   uo_closed : bool;
   uo_pushed : bool;
   uo_replace : nat;
-  uo_tracks : list kind
+  uo_tracks : list kind;
+  uo_group : nat             (* GHOST: the group of the owner when the connection was
+                                created (never read by the transitions) *)
 }.
 
 Record down := mkDown {
@@ -158,7 +160,17 @@ Record world := mkWorld {
 Definition fresh_client : client :=
   mkClient None 0 false false [] [] [] [] [] false.
 
-Definition dummy_up : upobj := mkUp 0 0 0 true true 0 [].
+Definition up_set_closed (o : upobj) : upobj :=
+  mkUp (uo_owner o) (uo_id o) (uo_label o) true (uo_pushed o) (uo_replace o) (uo_tracks o) (uo_group o).
+Definition up_set_pushed (b : bool) (o : upobj) : upobj :=
+  mkUp (uo_owner o) (uo_id o) (uo_label o) (uo_closed o) b (uo_replace o) (uo_tracks o) (uo_group o).
+Definition up_set_replace (r : nat) (o : upobj) : upobj :=
+  mkUp (uo_owner o) (uo_id o) (uo_label o) (uo_closed o) (uo_pushed o) r (uo_tracks o) (uo_group o).
+Definition up_add_track (k : kind) (o : upobj) : upobj :=
+  mkUp (uo_owner o) (uo_id o) (uo_label o) (uo_closed o) (uo_pushed o) (uo_replace o)
+       (uo_tracks o ++ [k]) (uo_group o).
+
+Definition dummy_up : upobj := mkUp 0 0 0 true true 0 [] 0.
 
 Definition init (n : nat) : world :=
   mkWorld n (fun _ => fresh_client) 0 (fun _ => dummy_up) [].
@@ -375,8 +387,7 @@ Definition del_up_conn (c id : nat) (push : bool) (w : world) : del_res :=
       let replace := uo_replace (w_up w u) in
       let g := c_group (w_cl w c) in
       let w1 := upd_cl c (fun cl => set_ups (remove_key id (c_up cl)) cl) w in
-      let w2 := upd_up u (fun o => mkUp (uo_owner o) (uo_id o) (uo_label o) true
-                                         (uo_pushed o) (uo_replace o) (uo_tracks o)) w1 in
+      let w2 := upd_up u up_set_closed w1 in
       match push, g with
       | true, Some g => DelOk (enq_all (others w2 g c) (APush g id None [] replace) w2)
       | _, _ => DelOk w2
@@ -389,23 +400,30 @@ Definition del_up_conn' (c id : nat) (push : bool) (w : world) : world :=
 (* pushConn(up, g, cs): pushed = false; go func() { sleep; ... }() *)
 Definition new_timer (u g : nat) (cs : list nat) (w : world) : world :=
   set_timers (w_timers w ++ [mkTimer u g cs])
-    (upd_up u (fun o => mkUp (uo_owner o) (uo_id o) (uo_label o) (uo_closed o)
-                             false (uo_replace o) (uo_tracks o)) w).
+    (upd_up u (up_set_pushed false) w).
 
 (* the goroutine after the sleep: test-and-set pushed; pushConnNow *)
 Definition fire_timer (t : timer) (w : world) : world :=
   let o := w_up w (t_up t) in
-  let w1 := upd_up (t_up t) (fun o => mkUp (uo_owner o) (uo_id o) (uo_label o) (uo_closed o)
-                                            true (if uo_pushed o then uo_replace o else 0)
-                                            (uo_tracks o)) w in
-  if uo_pushed o then w1
-  else enq_all (t_cs t) (APush (t_group t) (uo_id o) (Some (t_up t)) (uo_tracks o) (uo_replace o)) w1.
+  if uo_pushed o then w
+  else enq_all (t_cs t) (APush (t_group t) (uo_id o) (Some (t_up t)) (uo_tracks o) (uo_replace o))
+               (upd_up (t_up t) (fun o => up_set_replace 0 (up_set_pushed true o)) w).
 
 (* failUpConnection(c, id, message) with id != "" and message != "" *)
 Definition fail_up (c id : nat) (w : world) : world :=
   send c OError (send c (OAbort id) w).
 
 Inductive sdp := SGood | SMin | SBad.
+
+(* addUpConn creating a new connection: newUpConn, c.up[id] = conn, and the
+   pushConn at the end of newUpConn.  The new object is w_nup w. *)
+Definition new_up_conn (c id label g : nat) (w : world) : world :=
+  let u := w_nup w in
+  let w0 := mkWorld (w_n w) (w_cl w) (S u)
+              (fun x => if Nat.eqb x u then mkUp c id label false false 0 [] g else w_up w x)
+              (w_timers w) in
+  new_timer u g (others w g c)
+    (upd_cl c (fun cl => set_ups (c_up cl ++ [(id, u)]) cl) w0).
 
 (* gotOffer + the error handling of the `offer` case *)
 Definition got_offer (c id label replace : nat) (s : sdp) (w : world) : world :=
@@ -421,20 +439,13 @@ Definition got_offer (c id label replace : nat) (s : sdp) (w : world) : world :=
           let '(u, w1) :=
             match existing, c_group cl with
             | Some u, _ => (u, w)
-            | None, Some g =>
-                let u := w_nup w in
-                let w0 := mkWorld (w_n w) (w_cl w) (S u)
-                            (fun x => if Nat.eqb x u then mkUp c id label false false 0 [] else w_up w x)
-                            (w_timers w) in
-                (u, new_timer u g (others w g c)
-                      (upd_cl c (fun cl => set_ups (c_up cl ++ [(id, u)]) cl) w0))
+            | None, Some g => (w_nup w, new_up_conn c id label g w)
             | None, None => (0, w)
             end in
           let w2 :=
             if Nat.eqb replace 0 then w1
             else del_up_conn' c replace false
-                   (upd_up u (fun o => mkUp (uo_owner o) (uo_id o) (uo_label o) (uo_closed o)
-                                            (uo_pushed o) replace (uo_tracks o)) w1) in
+                   (upd_up u (up_set_replace replace) w1) in
           (* SetRemoteDescription .. SetLocalDescription: fail on a closed
              connection (replace = id) and on a description that is not an
              acceptable offer *)
@@ -621,8 +632,7 @@ Definition step (w : world) (o : op) : world :=
         | None => w                                 (* not reachable *)
         | Some g =>
             new_timer u g (others w g (uo_owner o))
-              (upd_up u (fun o => mkUp (uo_owner o) (uo_id o) (uo_label o) (uo_closed o)
-                                       (uo_pushed o) (uo_replace o) (uo_tracks o ++ [k])) w)
+              (upd_up u (up_add_track k) w)
         end
       else w
   end.
